@@ -176,7 +176,7 @@ PROPS = {
             'level_note': 'Pass-through is a data-flow proof over opaque tokens (domain L), (ii) is in exact binary64 (domain B), (iii) is a tag discipline. NOT decided: "within 1e-3*(1+F*) of the optimum and '
                           'success" — convergence of an iterative floating-point method; no per-call contract expresses it. ' + BOX_NOTE,
             'not_decided': ['convergence to the regularised optimum', 'success flag']},
-    'C07': {'bundles': ['inputs', 'paramcheck'], 'level': 'proof',
+    'C07': {'bundles': ['inputs', 'paramcheck', 'strtot'], 'level': 'proof',
             'level_text': 'The prologue of solve is executed symbolically (real scalars, parameter table, symbolic user_params dict): for each of 15 listed kinds of invalid value no path '
                           'reaches the first evaluation, and the early return is the input-error result (flag, nf == 0, non-empty message, constructor call conformance); '
                           'check_float / check_integer / check_bool are verified against their specification for every value incl. NaN and None (binary64 / Z); ParameterList.__call__ '
@@ -187,7 +187,7 @@ PROPS = {
                           'the range table (its shape and the three check_* functions are verified in the paramcheck bundle). Argument TYPES are as documented (ndarrays, numbers, callables); '
                           'a bool given for an int parameter is accepted by check_integer (bool is an int in Python) and not counted as wrongly typed. A-exc: exceptions raised by NumPy on '
                           'malformed arrays (wrong shapes) are outside the claim. NOT decided: printing (str) totality as its own obligation; "never raises" after the prologue (C08).',
-            'not_decided': ['str(result) total']},
+            'not_decided': []},
     'C19': {'bundles': ['owner', 'ledger', 'paramcheck'], 'level': 'proof',
             'level_text': '(a) Ownership: solve is executed with flow- and path-sensitive tags (borrowed / fresh); no in-place write (element, slice or mask store, augmented assignment, '
                           'mutating method) reaches a possibly-borrowed object and every mutable array handed to the rest of the package is fresh; no function of the package writes to a '
@@ -199,7 +199,7 @@ PROPS = {
                           'with projections the rank-deficiency fallback of the coordinate initialisation draws random numbers unconditionally (used only if the projected directions are '
                           'rank deficient): with projections the clause is not decided. ' + LEDGER_NOTE,
             'not_decided': ['N5 growing-phase link', 'projections: rank-deficiency fallback (path-sensitive taint not built)']},
-    'C20': {'bundles': ['jsonrt'], 'level': 'proof',
+    'C20': {'bundles': ['jsonrt', 'strtot'], 'level': 'proof',
             'level_text': 'Field-wise: to_dict writes exactly the 12 fields, each with the documented encoding (contract on the real body); from_dict decodes each key into the '
                           'field of the same name through the real constructor (call conformance, parameter order); 24 round-trip lemmas DEC_f(json(ENC_f(v))) == norm_f(v) over '
                           'the library axioms, for replace_nan on and off; replace_nan_with_none by structural induction on its real body; every non-table value is plain / strict JSON.',
@@ -207,7 +207,7 @@ PROPS = {
                           '(A-lib) and differentially tested in the thorough tier. "Diagnostic table exactly" is read as: same columns and cell values in order; index labels become strings '
                           '(JSON object keys). str() equality is a consequence of field-wise equality because __str__ reads only those fields (and formats them with %-operators) — not a separate '
                           'obligation. Without NaN replacement a NaN objective travels as the non-strict literal NaN.',
-            'not_decided': ['str(original) == str(reloaded) as its own obligation', 'pandas / json axioms (assumed)']},
+            'not_decided': ['str(original) == str(reloaded) as its own obligation (it follows from field-wise equality; totality of str() IS an obligation, bundle strtot)', 'pandas / json axioms (assumed)']},
     'C10': {'bundles': ['ledger', 'radii'], 'level': 'proof',
             'level_text': 'One obligation per exit site: MAXFUN flag implies nf == maxfun, the max-restarts message implies that many runs, '
                           'nruns == restarts + 1 via a ghost restart counter checked at every break/continue/return of solve_main and solve.',
